@@ -21,7 +21,7 @@ def _lib():
         "cs": L.CSGate, "csdg": L.CSdgGate, "csx": L.CSXGate, "rxx": L.RXXGate, "ryy": L.RYYGate,
         "rzz": L.RZZGate, "crx": L.CRXGate, "cry": L.CRYGate, "crz": L.CRZGate, "ecr": L.ECRGate,
         "cp": L.CPhaseGate, "swap": L.SwapGate, "iswap": L.iSwapGate, "dcx": L.DCXGate, "rzx": L.RZXGate,
-        "xx_plus_yy": L.XXPlusYYGate, "xx_minus_yy": L.XXMinusYYGate, "ccx": L.CCXGate, "u": L.UGate,
+        "xx_plus_yy": L.XXPlusYYGate, "xx_minus_yy": L.XXMinusYYGate, "ccx": L.CCXGate, "cswap": L.CSwapGate, "ccz": L.CCZGate, "u": L.UGate,
         "reset": Reset, "measure": Measure, "qpd_measure": QPDMeasure, "move": Move, "cut_wire": CutWire,
     }
 
